@@ -597,7 +597,7 @@ func migrateRuleSet(lang i18n.Language, r RuleSet, validDests map[uuids.UUID]boo
 
 	case "form_field":
 		operand, _ := expressions.MigrateTemplate(r.Operand, nil)
-		operand = fmt.Sprintf("@(field(%s, %d, \"%s\"))", operand[1:], config.FieldIndex, config.FieldDelimiter)
+		operand = fmt.Sprintf("@(field(%s, %d, \"%s\"))", strings.TrimPrefix(operand, "@"), config.FieldIndex, config.FieldDelimiter)
 		router = newSwitchRouter(nil, resultName, categories, operand, cases, defaultCategory)
 
 		lastDot := strings.LastIndex(r.Operand, ".")
